@@ -43,6 +43,50 @@ NEEDS = {
  "C20-patch": ("btree.c btreeDelete0 takes the replacement entry from the search slot", "B-tree with equal keys and different entries: one entry duplicated, one lost"),
  "C20-patch2": ("bitv.c bitvEqual loses the exact-multiple-of-word early return", "bit vectors whose size is an exact multiple of 64 differing only in the last word"),
 }
+
+NEEDS2 = {
+ "C01-patch": ("genfoam.c gen0UnionIndex ignores the branch label", "tagged Union with two branches of the same type, value built in the later one"),
+ "C01-patch2": ("foam.c foamSIntReduce skips zero chunks together with their shift", "MachineInteger constant that is a multiple of 2^31 (or has a zero middle chunk), -Q2+, interpreter / .ao"),
+ "C02-patch": ("of_cprop.c cpRhsVarFrCopy no longer files copies of parameters", "save a parameter in a local, assign the parameter, read the local; any level running copy propagation (-Q1+)"),
+ "C02-patch2": ("of_cfold.c folds SIntShiftDn as an unsigned shift", "right shift of a negative compile-time constant with inline+cprop+cfold on (-Q2+)"),
+ "C03-patch": ("foam.c foamSIntReduce zero-chunk slip (same site as C01-patch2, independent author)", "multiples of 2^31 at -Q2+ on the interpreter routes only"),
+ "C03-patch2": ("optfoam.c + ccomp.c: cc-fnonstd on at -Q4+ and actually passed to the C compiler", "-Q5/-Q9 executables compiled with -ffast-math: IEEE-sensitive float code differs"),
+ "C04-patch": ("genc.c/util.c: folded SingleFloat constants printed into C with FLT_DIG+2 = 8 digits", "-Q2+ C route, SFlo constants needing 9 significant digits: 1 ulp off"),
+ "C04-patch2": ("of_cfold.c fills SIntLength/SIntBit folds with the big-integer helpers", "folded length(0) = 1, bit(-1,k) wrong (sign-magnitude instead of two's complement)"),
+ "C05-patch": ("lib.c constant numbers of conditional exports cleared before the syme closure", "library domain overriding a category default under a condition, client with cross-unit inlining (-Q2+), instantiation where the condition is false"),
+ "C05-patch2": ("archive.c long member names share one static buffer", ".al with two or more members whose names exceed 15 characters"),
+ "C06-patch": ("ti_tdn.c titdnLambda loses the fluid restore of the expected return type", "outer function with a nested function of a different return type and a later `return e`"),
+ "C06-patch2": ("tfsat.c tfSatMap0 parenthesis slip drops the result-type comparison of map types", "function passed as a value where a map type with the same parameters but another result type is required"),
+ "C07-patch": ("macex.c macro arity check accepts surplus arguments", "parameterised macro called with more arguments than parameters"),
+ "C07-patch2": ("scan.c comment flag set after stepping over the opener", "a line ending in `--_` / `++_` swallows the next source line"),
+ "C07-patch3": ("include.c NUL check only on non-directive lines", "NUL byte on a line starting with `#` in a taken region"),
+ "C08-patch": ("gf_add.c export-name string table re-keyed by pointer and iterated", "file defining a domain with two or more exports: .ao/.fm/.c/.lsp vary with ASLR and GC mode"),
+ "C08-patch2": ("of_inlin.c memset with the element count leaves paramCount mostly uninitialised", "-Q2+: code shape depends on heap residue (ASLR, -Wgc vs -Wno-gc)"),
+ "C09-patch": ("store.c stoGcMarkRange tail call replaced by real recursion", "live list of 100 000 cells: collector overflows the C stack (both routes)"),
+ "C09-patch2": ("store.c pointer-free shortcut hoisted above the marking of the piece itself", "live big integers beyond the immediate range are swept"),
+ "C10-patch": ("store.c QmInfoSetCode loses its code mask", "stoRecode with an object type >= 32: tag bits corrupt mark/kind fields"),
+ "C10-patch2": ("os_unix.c [heap] mapping no longer reported as a root area", "only reference to a live block sits in a small malloc block"),
+ "C11-patch": ("of_peep.c identity table: gcd(x,0) = x", "-Q2+: gcd with a literal 0 and a negative other operand"),
+ "C11-patch2": ("bigint.c iintDivide add-back without resetting the carry", "Knuth D add-back branch: wrong remainder/quotient/gcd for specific operand pairs"),
+ "C12-patch": ("javacode.c drops parentheses of an equal-precedence right operand under `*`", "-Q2+ Java: k*(a quo b), k*(a rem b) printed as k*a/b, k*a%b"),
+ "C12-patch2": ("foamj FoamContext.startFoam ports fiHalt: exit(status) with status 0 for `error`", "program ending through error(...) exits 0 in Java, 1 in the interpreter"),
+ "C13-patch": ("axlcomp.c compGLoopEval resets isChecked only after an accepted form", "-Gloop: an ill-typed form followed by the first form of the session mentioning a new type"),
+ "C13-patch2": ("scobind.c scobindUndo early exit skips clearing the undo flag", "-Gloop: rejected form adding no name, then a definition, one more form, then a use"),
+ "C14-patch": ("scan.c escaped line break skips blanks and one newline only", "#pile: escaped line break followed by a blank line, continuation not indented deeper"),
+ "C14-patch2": ("linear.c joinUp applies the keyword rule to one-line piles only", "block of glued lines under then/else/with/add/try: outer else attaches to the inner if"),
+ "C15-patch": ("comsg.c message runs delimited by file-local line numbers", "two consecutive diagnostics in different files sharing a local line number"),
+ "C15-patch2": ("srcpos.c cached table lookup with an inclusive upper bound", "diagnostic on the first line of a table entry right after one in the preceding entry"),
+ "C16-patch": ("ccode.c literal printer drops `?` under -Cold", "-Cold and a string/character literal containing `?`"),
+ "C16-patch2": ("genc.c gc0ModuleInitFun keeps the full name while its callers truncate", "source file base name longer than idlen-8 characters: link fails"),
+ "C17-patch": ("lib.c archive-member bounds test drops the member offset + read test accepts short reads", ".al cut inside the last section of its last member (last 1-6 bytes): -Fc exits 0 with different C"),
+ "C17-patch2": ("sexpr.c comment skipping loop loses its EOF test", ".fm written with -Zdb truncated inside a `;` comment: the reader spins forever"),
+ "C18-patch": ("ostream.c flush on close + emit.c tests fflush instead of ferror", "-Fjava with aldorcode/ on a full device: exit 0, empty/truncated .java"),
+ "C18-patch2": ("file.c fileRename passes one static buffer twice", "-Fc with -Fx in a directory holding an old prog.o: requested prog.c never appears"),
+ "C19-patch": ("genc.c prints SingleFloat constants as %#.8gf", "-Q2+ C route, values needing 9 digits"),
+ "C19-patch2": ("foam_c.c dissemble takes the sign by comparison with 0.0", "assemble(dissemble(-0.0)) and negative-signed NaNs"),
+ "C20-patch": ("dnf.c dnfImplies early exit `yy false => false`", "dnfImplies/dnfEqual of two unsatisfiable formulas that are not the shared constant"),
+ "C20-patch2": ("priq.c heapSiftOutward loop bound tests the right child", "extractMin over an even element count: a node with only a left child is treated as a leaf"),
+}
 V = "/verif"
 def first(path, pat, default=""):
     try:
@@ -51,9 +95,11 @@ def first(path, pat, default=""):
     except OSError:
         return default
 n = 0
-for key, (what, needs) in sorted(NEEDS.items()):
-    prop, pn = key.split("-")
-    src = "/tmp/mut/M-%s-out" % prop
+ALL = [(k, v, "M", "") for k, v in sorted(NEEDS.items())] + [(k, v, "M2", "M2-") for k, v in sorted(NEEDS2.items())]
+for key0, (what, needs), rnd, pref in ALL:
+    prop, pn = key0.split("-")
+    key = pref + key0
+    src = "/tmp/mut/%s-%s-out" % (rnd, prop)
     suf = pn[len("patch"):]
     conf = "/var/tmp/seedconfirm/%s.txt" % key
     if not os.path.exists(conf):
@@ -62,7 +108,8 @@ for key, (what, needs) in sorted(NEEDS.items()):
     ok = all(x in c for x in ("apply=ok", "build=ok", "testall=1", "demo_mutated_rc=1", "demo_clean_rc=0"))
     if not ok:
         print("not confirmed:", key); continue
-    d = os.path.join(V, "seeded", "%s-%s" % (prop, "a" if suf == "" else "b"))
+    letter = {"": "a", "2": "b", "3": "e"}[suf] if rnd == "M" else {"": "c", "2": "d", "3": "f"}[suf]
+    d = os.path.join(V, "seeded", "%s-%s" % (prop, letter))
     os.makedirs(d, exist_ok=True)
     shutil.copy(os.path.join(src, pn + ".diff"), os.path.join(d, "patch.diff"))
     shutil.copy(os.path.join(src, "demo%s.sh" % suf), os.path.join(d, "demo.sh"))
@@ -77,7 +124,7 @@ for key, (what, needs) in sorted(NEEDS.items()):
         except Exception:
             pass
     det = {}
-    for lg in glob.glob("/var/tmp/mutlog/%s*.log" % key):
+    for lg in glob.glob("/var/tmp/mutlog/%s*.log" % (key if rnd == "M2" else key0)):
         t = open(lg, errors="replace").read()
         for m in re.finditer(r"=== (C\d+) under", t):
             chk = m.group(1)
@@ -85,7 +132,7 @@ for key, (what, needs) in sorted(NEEDS.items()):
         sigs = re.findall(r"^  -- ([^:]{1,120}):", t, re.M)[:3]
         det[os.path.basename(lg)[:-4]] = {"violation_lines": nv, "first_signatures": sigs}
     meta = {"id": os.path.basename(d), "property": prop, "what": what, "needs_to_manifest": needs,
-            "origin": "written by a fresh sub-agent given only the property text and a scratch worktree (no access to /verif)",
+            "round": 1 if rnd == "M" else 2, "origin": "written by a fresh sub-agent given only the property text and a scratch worktree (no access to /verif)",
             "confirmed": {"how": "tools/confirm_seeds.sh on a fresh worktree of /repo HEAD: git apply, rebuild, `make check` in aldor/aldor/src (testall), demo.sh on the changed tree and on an unchanged one",
                           "result": [l for l in c.split("\n") if re.match(r"(id=|apply=|build=|testall=|demo_|java=)", l)],
                           "full_suite_in_relocated_copy": suite},
